@@ -16,7 +16,7 @@ import (
 )
 
 // varLit returns the composite literal a package level variable is initialised with.
-func (p *pkgInfo) varLit(name string) *ast.CompositeLit {
+func (p *pkgInfo) c11VarLit(name string) *ast.CompositeLit {
 	for _, f := range p.files {
 		for _, d := range f.Decls {
 			gd, ok := d.(*ast.GenDecl)
@@ -39,7 +39,7 @@ func (p *pkgInfo) varLit(name string) *ast.CompositeLit {
 	return nil
 }
 
-func (p *pkgInfo) constInt(e ast.Expr) (int64, bool) {
+func (p *pkgInfo) c11ConstInt(e ast.Expr) (int64, bool) {
 	tv, ok := p.info.Types[e]
 	if !ok || tv.Value == nil {
 		return 0, false
@@ -55,7 +55,7 @@ func (p *pkgInfo) tableElems(cl *ast.CompositeLit, fixedLen int) []ast.Expr {
 	for _, el := range cl.Elts {
 		var val ast.Expr = el
 		if kv, ok := el.(*ast.KeyValueExpr); ok {
-			k, ok := p.constInt(kv.Key)
+			k, ok := p.c11ConstInt(kv.Key)
 			if !ok {
 				fatalf("%s: table key is not a constant", p.dir)
 			}
@@ -75,15 +75,15 @@ func (p *pkgInfo) tableElems(cl *ast.CompositeLit, fixedLen int) []ast.Expr {
 }
 
 // emitIntTable emits an integer table as `list Z` (missing entries are 0).
-func (p *pkgInfo) emitIntTable(w *bytes.Buffer, coqName, goName string, fixedLen int) {
-	els := p.tableElems(p.varLit(goName), fixedLen)
+func (p *pkgInfo) c11EmitIntTable(w *bytes.Buffer, coqName, goName string, fixedLen int) {
+	els := p.tableElems(p.c11VarLit(goName), fixedLen)
 	var parts []string
 	for _, e := range els {
 		if e == nil {
 			parts = append(parts, "0")
 			continue
 		}
-		v, ok := p.constInt(e)
+		v, ok := p.c11ConstInt(e)
 		if !ok {
 			fatalf("%s: %s: element is not an integer constant", p.dir, goName)
 		}
@@ -97,8 +97,8 @@ func (p *pkgInfo) emitIntTable(w *bytes.Buffer, coqName, goName string, fixedLen
 }
 
 // emitStructTable emits a table of structs with integer fields as a list of tuples.
-func (p *pkgInfo) emitStructTable(w *bytes.Buffer, coqName, goName string, fields []string) {
-	els := p.tableElems(p.varLit(goName), 0)
+func (p *pkgInfo) c11EmitStructTable(w *bytes.Buffer, coqName, goName string, fields []string) {
+	els := p.tableElems(p.c11VarLit(goName), 0)
 	var rows []string
 	for _, e := range els {
 		vals := make([]string, len(fields))
@@ -118,7 +118,7 @@ func (p *pkgInfo) emitStructTable(w *bytes.Buffer, coqName, goName string, field
 					}
 					val = kv.Value
 				}
-				v, ok := p.constInt(val)
+				v, ok := p.c11ConstInt(val)
 				if idx < 0 || !ok {
 					fatalf("%s: %s: unsupported struct element", p.dir, goName)
 				}
@@ -139,7 +139,7 @@ func (p *pkgInfo) emitStructTable(w *bytes.Buffer, coqName, goName string, field
 
 // emitStringTable emits a []string literal as a list of byte lists.
 func (p *pkgInfo) emitStringTable(w *bytes.Buffer, coqName, goName string) {
-	els := p.tableElems(p.varLit(goName), 0)
+	els := p.tableElems(p.c11VarLit(goName), 0)
 	var rows []string
 	for _, e := range els {
 		s := ""
@@ -214,14 +214,14 @@ func (p *pkgInfo) emitLookup(w *bytes.Buffer, coqName, recv, name, goTable, coqT
 func init() {
 	emitters["50_c11"] = func(w *bytes.Buffer) {
 		sam := load("sam")
-		sam.emitStructTable(w, "c11_consume", "consume", []string{"Query", "Reference"})
+		sam.c11EmitStructTable(w, "c11_consume", "consume", []string{"Query", "Reference"})
 		sam.emitStringTable(w, "c11_cigarOps", "cigarOps")
-		sam.emitIntTable(w, "c11_powers", "powers", 0)
-		sam.emitIntTable(w, "c11_auxKind", "auxKind", 256)
-		sam.emitIntTable(w, "c11_n16TableRev", "n16TableRev", 16)
+		sam.c11EmitIntTable(w, "c11_powers", "powers", 0)
+		sam.c11EmitIntTable(w, "c11_auxKind", "auxKind", 256)
+		sam.c11EmitIntTable(w, "c11_n16TableRev", "n16TableRev", 16)
 		sam.emitLookup(w, "c11_Consumes", "CigarOpType", "Consumes", "consume", "c11_consume", "Z * Z", "(0, 0)")
 		sam.emitLookup(w, "c11_OpString", "CigarOpType", "String", "cigarOps", "c11_cigarOps", "list Z", "[]")
 		bam := load("bam")
-		bam.emitIntTable(w, "c11_jumps", "jumps", 256)
+		bam.c11EmitIntTable(w, "c11_jumps", "jumps", 256)
 	}
 }
